@@ -17,9 +17,9 @@ import (
 
 // TemplateRoot is one (asset, data type) pair rendered by the generator.
 type TemplateRoot struct {
-	Asset   string // template name, e.g. "serverParameter"
-	Section string
-	Type    types.Type
+	Asset    string // template name, e.g. "serverParameter"
+	Section  string
+	Type     types.Type
 	Markdown bool
 }
 
@@ -256,7 +256,6 @@ func typeStr(t types.Type) string {
 	}
 	return types.TypeString(t, func(p *types.Package) string { return p.Name() })
 }
-
 
 // importedNames: names made available by the import block(s) written literally in the
 // template text: the alias when given, else the last path element.
